@@ -59,6 +59,16 @@ def regroup(rows: Sequence[Dict[str, Any]], to_date: Optional[date]) -> Dict[Tup
     return {k: tuple(v) for k, v in out.items()}
 
 
+# RP2 adds the fractions up in decimal arithmetic with 28 significant digits: each addition may round in the 28th digit, while the sums below are
+# exact rationals. Two figures are "equal" when they differ by less than 1e-20 of the larger magnitude in the line (eight digits of slack for the
+# rounding, still five digits finer than the 1e-15 the properties ask for); on the integer-valued histories of the tree this is exact equality.
+SUM_TOL = Fraction(1, 10**20)
+
+
+def same(a: Fraction, b: Fraction, scale: Fraction) -> bool:
+    return a == b or abs(a - b) <= SUM_TOL * max(scale, Fraction(1))
+
+
 def compare(got: Dict[Any, Any], want: Dict[Any, Any]) -> Optional[str]:
     for k in want:
         if k not in got:
@@ -67,9 +77,10 @@ def compare(got: Dict[Any, Any], want: Dict[Any, Any]) -> Optional[str]:
         if k not in want:
             return f"summary line {k} has no detail fraction"
     for k in want:
-        if got[k] != want[k]:
+        scale = max(abs(x) for x in want[k])
+        if any(not same(got[k][i], want[k][i], scale) for i in range(4)):
             names = ("crypto amount", "proceeds", "cost basis", "gain")
-            i = next(i for i in range(4) if got[k][i] != want[k][i])
+            i = next(i for i in range(4) if not same(got[k][i], want[k][i], scale))
             return f"summary line {k}: {names[i]} {got[k][i]} != sum of its fractions {want[k][i]}"
     return None
 
@@ -104,17 +115,39 @@ def worker(task: Tuple[Any, ...]) -> Stats:
     st = Stats()
     for hist0 in tree.level(root, depth):
       for hist, specs in variants_of(hist0, _dev, row_order):
-        if specs is None:
-            continue
+        if specs is not None:
+            judge_history(st, hist, specs, schedules, _dev)
+    return st
+
+
+def bundled_worker(chunk: List[Tuple[str, str]]) -> Stats:
+    """The inputs bundled with RP2, per asset sheet: every to-date / from-date of interest, summary vs detail."""
+    from rp2verif import bundled
+
+    st = Stats()
+    data = bundled.load()
+    for fname, asset in chunk:
+        own = bundled.schedule_of(fname)
+        schedules = [((1970, m),) for m in ("fifo", "lifo", "hifo", "lofo")] + ([tuple((int(y), m) for y, m in own)] if own else [])
+        st.inc("bundled_sheets")
+        judge_history(st, (), data[fname][asset], schedules, 0, name=f"bundled input {fname}.ods, asset {asset}")
+    return st
+
+
+def judge_history(st: Stats, hist: Any, specs: List[Dict[str, Any]], schedules: Sequence[Any], _dev: Any, name: Optional[str] = None) -> None:
+    from rp2verif.seams import compute as C
+
+    hs = name or H.hist_str(hist)
+    if True:
         tos, froms = dates_of_interest(specs)
         for sch in schedules:
             st.inc("histories")
-            base = {"history": H.hist_str(hist), "hist": hist, "specs": specs, "schedule": list(sch)}
+            base = {"history": hs, "hist": hist, "specs": specs, "schedule": list(sch)}
             full = C.run_window(specs, sch)
             if not full.ok:
                 st.inc("evaluations")
                 st.violation(dict(base, signature=f"C06 valid history rejected / {type(full.error).__name__}",
-                                  what=f"{sched_str(sch)}: {H.hist_str(hist)} :: {type(full.error).__name__}: {full.error}"))
+                                  what=f"{sched_str(sch)}: {hs} :: {type(full.error).__name__}: {full.error}"))
                 continue
             all_rows = C.detail(full.computed)
             windows: List[Tuple[Optional[date], Optional[date]]] = [(None, t) for t in tos] + [(f, None) for f in froms]
@@ -131,7 +164,7 @@ def worker(task: Tuple[Any, ...]) -> Stats:
                 wb = dict(base, from_date=str(fd) if fd else None, to_date=str(td) if td else None)
                 if not out.ok:
                     st.violation(dict(wb, signature=f"C06 valid window rejected / {type(out.error).__name__}",
-                                      what=f"{sched_str(sch)} -f {fd} -t {td}: {H.hist_str(hist)} :: {type(out.error).__name__}: {out.error}"))
+                                      what=f"{sched_str(sch)} -f {fd} -t {td}: {hs} :: {type(out.error).__name__}: {out.error}"))
                     continue
                 lines, dups = C.yearly_lines(out.computed)
                 if _dev == "mixed":
@@ -153,19 +186,18 @@ def worker(task: Tuple[Any, ...]) -> Stats:
                     for i, name in enumerate(("crypto amount", "proceeds", "cost basis", "gain")):
                         tot_lines = sum((v[i] for v in lines.values()), Fraction(0))
                         tot_rows = sum((r[("amount", "proceeds", "cost", "gain")[i]] for r in own), Fraction(0))
-                        if tot_lines != tot_rows:
+                        if not same(tot_lines, tot_rows, max((abs(r[f]) for r in own for f in ("amount", "proceeds", "cost")), default=Fraction(1)) * max(len(own), 1)):
                             problem = f"grand total {name} of the summary {tot_lines} != total of the detail table {tot_rows}"
                             break
                 keys_seen |= set(want)
                 if problem:
                     st.violation(dict(wb, signature=f"C06 summary / {problem.split(' (')[0].split(':')[0][:40]}",
-                                      what=f"{sched_str(sch)} -f {fd} -t {td}: {H.hist_str(hist)} :: {problem}"))
+                                      what=f"{sched_str(sch)} -f {fd} -t {td}: {hs} :: {problem}"))
             multi = len({k[0] for k in keys_seen}) >= 2 or any(k[3] for k in keys_seen)
             if multi:
                 st.inc("distinct_nontrivial")
-                st.sample({"history": H.hist_str(hist), "schedule": sched_str(sch), "windows": len(windows),
+                st.sample({"history": hs, "schedule": sched_str(sch), "windows": len(windows),
                            "summary keys over all windows": sorted(str(k) for k in keys_seen)}, cap=1)
-    return st
 
 
 def plan(tier: str) -> List[Dict[str, Any]]:
@@ -190,6 +222,17 @@ def main(tier: str, budget_s: Optional[float] = None) -> int:
     t0 = time.time()
     deadline = t0 + (budget_s or (240 if tier == "quick" else 3000))
     total, info, complete = run_phases(plan(tier), worker, FIRST, SYMBOLS, EXTRA, deadline)
+    from rp2verif import bundled as _B
+
+    bt = _B.sheets()
+    tb = time.time()
+    bres, bdone = common.pmap(bundled_worker, [[x] for x in bt], deadline=max(deadline, time.time() + 90))
+    for r in bres:
+        if r is not None:
+            total.merge(r)
+    complete = complete and bdone == len(bt)
+    info.append({"phase": "inputs bundled with RP2: every to-/from-date of interest per asset sheet of the 9 files x 4 methods (+ the file's own schedule)", "asset_sheets": len(bt),
+                 "executions": total.get("bundled_sheets"), "wall_s": round(time.time() - tb, 1)})
     new, matched = common.report(PROP, total.violations)
     coverage = {
         "evaluations": total.get("evaluations"),
